@@ -55,8 +55,10 @@ def oracle(case):
     return case
 
 
-def gen_valid(rng, quick=True, seed_corpus=True):
+def gen_valid(rng, quick=True, seed_corpus=True, heavy=False):
     out = []
+    if heavy:
+        out.append(full_block_case())
     P = plains(rng, quick)
     # V1: a real encoder (libbz2) at several levels
     for i, p in enumerate(P):
@@ -171,6 +173,28 @@ def gen_valid(rng, quick=True, seed_corpus=True):
                     with open(os.path.join(root, f), 'rb') as fh:
                         out.append(Case('corpus-' + f, fh.read(), 'corpus'))
     return out
+
+
+def full_block_case():
+    """A level-9 block with the maximum 900000 bytes and no zero runs at all:
+    900001 symbols = 18001 groups of 50 (the largest group count the format
+    can need; bzip2 itself never produces it)."""
+    w = BitWriter()
+    w.put(8, 0x42)
+    w.put(8, 0x5A)
+    w.put(8, 0x68)
+    w.put(8, 0x39)
+    used = [0x61, 0x62, 0x63]
+    lens = [3, 3, 1, 3, 3]            # RUNA RUNB MTF1 MTF2 EOB ; complete
+    assert B.complete(lens)
+    syms = [2, 3] * 450000            # every symbol moves a byte: no runs
+    info = B.make_raw_block(w, used, [lens, lens], [0] * 18001, syms)
+    w.put(48, B.EOS_MAGIC)
+    w.put(32, B.combine(0, info['crc']))
+    w.align()
+    c = Case('v8-full-18001-groups', w.bytes(), 'full-block-18001-groups')
+    c.expect = info['plain']
+    return c
 
 
 def fix_no_runs(blk):
